@@ -80,6 +80,7 @@ func checkC20(ck *Check) {
 	ck.percentGuards("C20.R5")
 	ck.loopContainment("C20.R6")
 	ck.fallibleStores("C20.R9", fns)
+	ck.singleThreadedScan("C20.R10", fns)
 }
 
 // scanFunctions: repo functions reachable from RunOnce.
@@ -535,6 +536,37 @@ func (ck *Check) insertOrPresent(ctx *Ctx, mu *ssa.MapUpdate, lk *ssa.Lookup) bo
 		}
 	}
 	return false
+}
+
+// singleThreadedScan (C20.R10): every rule reads the scan as one sequential computation. No code
+// reachable from RunOnce starts a goroutine, sends on a channel or waits for a group of goroutines:
+// a send nobody receives (or a wait for a goroutine blocked on one) wedges the scan for every group
+// without a panic or an error.
+func (ck *Check) singleThreadedScan(rule string, fns []*ssa.Function) {
+	n := 0
+	for _, fn := range fns {
+		ord := 0
+		for _, b := range fn.Blocks {
+			for _, in := range b.Instrs {
+				n++
+				switch x := in.(type) {
+				case *ssa.Go:
+					ck.fail(rule, fmt.Sprintf("%s/go#%d", funcID(fn), ord), ck.P.instrPos(x), funcID(fn), "code reachable from RunOnce starts no goroutine", "go statement", "the scan is no longer one sequential computation: its steps race, and a goroutine blocked on a channel can wedge it")
+					ord++
+				case *ssa.Send:
+					ck.fail(rule, fmt.Sprintf("%s/send#%d", funcID(fn), ord), ck.P.instrPos(x), funcID(fn), "code reachable from RunOnce sends on no channel", "channel send", "a send that nobody receives blocks forever")
+					ord++
+				case *ssa.Call:
+					if f := x.Common().StaticCallee(); f != nil && f.String() == "(*sync.WaitGroup).Wait" {
+						ck.fail(rule, fmt.Sprintf("%s/wait#%d", funcID(fn), ord), ck.P.instrPos(x), funcID(fn), "code reachable from RunOnce waits for no goroutine group", "WaitGroup.Wait", "the wait never returns if one of the goroutines blocks")
+						ord++
+					}
+				}
+			}
+		}
+	}
+	ck.Stats[rule+" instructions examined"] = n
+	ck.ok(rule, "scan/sequential", "", funcID(ck.A.RunOnce), "no go statement, channel send or WaitGroup.Wait in code reachable from RunOnce", fmt.Sprintf("%d instructions in %d functions", n, len(fns)))
 }
 
 // stopCensus (C20.R3)
